@@ -23,8 +23,8 @@ cfg("MCAmlNsXDeclsQuick", GEN, "PreDecls", "Fresh3", 1, 1, 1, ["Alias", "Externa
 cfg("MCAmlNsXDeclsFull", GEN, "PreDecls", "Fresh3", 2, 1, 2, ["Alias", "External", "CreateField", "Name", "Scope"], ["abs", "caret"], ["const", "pkgref", "pkgmeth", "bufname", "bufcall", "bufop"], [], 0)
 cfg("MCAmlNsXStmtsQuick", GEN, "PreBody", "Fresh2", 1, 1, 1, [], ["abs"], [], ["sync", "notify", "match", "call", "calloplast", "cfield", "store", "pkg", "varpkg", "buf"], 1)
 cfg("MCAmlNsXStmtsFull", GEN, "PreBody", "Fresh2", 2, 1, 1, [], ["abs"], [], ["sync", "notify", "match", "call", "calloplast", "cfield", "store", "pkg", "varpkg", "buf"], 2)
-cfg("MCAmlNsXFlowQuick", GEN, "PreBody", "Fresh2", 4, 1, 1, [], [], [], ["if", "else", "while", "notify"], 4)
-cfg("MCAmlNsXFlowFull", GEN, "PreBody", "Fresh2", 7, 1, 1, [], [], [], ["if", "else", "while", "notify", "call"], 7)
+cfg("MCAmlNsXFlowQuick", GEN, "PreBody", "Fresh2", 5, 1, 1, [], [], [], ["if", "else", "while", "notify"], 5)
+cfg("MCAmlNsXFlowFull", GEN, "PreBody", "Fresh2", 6, 1, 1, [], [], [], ["if", "else", "while", "notify"], 6)
 
 # ---- design model of the operand collection (MCAmlBodyX): BodyRefines on straight-line bodies; design mutants and the open trigger must be rejected
 BODY = ["call", "callop", "calloplast", "store", "notify", "sync", "match"]
